@@ -50,6 +50,7 @@ extern "C" int vf_run_case(const uint8_t * data, size_t size)
    // (5),(6) checksum and equality
    Message stripped = msg; StripNonFlattenable(stripped);
    if (stripped.CalculateChecksum() != m2.CalculateChecksum()) vf::Fail("checksum changed by the trip for %s", Summary(mod).c_str());
+   if (msg.CalculateChecksum() != m2.CalculateChecksum()) vf::Fail("the checksum of a Message with pointer/tag fields (documented to be ignored by default) differs from its parsed copy's for %s", Summary(mod).c_str());
    if ((st.hasNaN == false)&&((stripped == m2) == false)) vf::Fail("a Message without NaNs is not equal to its parsed copy: %s", Summary(mod).c_str());
    if ((st.hasNaN == false)&&((m2 == stripped) == false)) vf::Fail("equality is not symmetric after the trip: %s", Summary(mod).c_str());
 
